@@ -31,6 +31,11 @@ let stages : (Stdlib.String.t * (Stdlib.String.t list -> n list)) list = [
      show_walk (if m < 0 then None else Some (nat_of_int m)) (unhex (List.nth f 0)));
   "lit", (fun f -> show_lit (unhex (List.nth f 0)));
   "cli", (fun f -> show_cli (unhex (List.nth f 0)));
+  (* reread: source, parameter pairs, and last the SQL text the implementation produced *)
+  "reread", (fun f ->
+     let rec pairs = function k :: v :: (_ :: _ as r) -> (unhex k, unhex v) :: pairs r | _ -> [] in
+     let sql = unhex (List.nth f (List.length f - 1)) in
+     reread (pairs (List.tl f)) (unhex (List.hd f)) sql);
   "compile", (fun f ->
      let rec pairs = function k :: v :: r -> (unhex k, unhex v) :: pairs r | _ -> [] in
      show_compile (pairs (List.tl f)) (unhex (List.hd f)));
